@@ -9,3 +9,13 @@ func CheckStateTrits(l, h *[consts.HashTrinarySize]uint, n uint) int { return ch
 
 // TrailingZeros exposes trailingZeros for differential verification runs (build tag verif only).
 func TrailingZeros(powDigest []byte, nonce uint64) int { return trailingZeros(powDigest, nonce) }
+
+// WorkerRun exposes the mining loop of a single worker goroutine (no cancellation) for differential runs:
+// it mines from startNonce until a lane of some batch has at least target trailing zero trits.
+func (w *Worker) WorkerRun(powDigest []byte, startNonce uint64, target uint) (uint64, error) {
+	var (
+		done    uint32
+		counter uint64
+	)
+	return w.worker(powDigest, startNonce, target, &done, &counter)
+}
